@@ -13,6 +13,7 @@ import (
 	"strconv"
 	"strings"
 	"sync"
+	"syscall"
 )
 
 // ---- what nsqadmin asked the stubs
@@ -149,8 +150,9 @@ type InfoJSON struct {
 }
 
 type Stub struct {
-	Addr string
-	Port int
+	Addr   string
+	Port   int
+	Shadow int // a port of its own at which connections are refused
 	ln   net.Listener
 	rec  *Recorder
 	mu   sync.Mutex
@@ -163,20 +165,31 @@ func NewStub(rec *Recorder) *Stub {
 		panic(err)
 	}
 	s := &Stub{Addr: ln.Addr().String(), Port: ln.Addr().(*net.TCPAddr).Port, ln: ln, rec: rec}
+	_, sp, _ := net.SplitHostPort(DeadAddr())
+	s.Shadow, _ = strconv.Atoi(sp)
 	srv := &http.Server{Handler: http.HandlerFunc(s.serve)}
 	go srv.Serve(ln)
 	return s
 }
 
-// DeadAddr reserves a loopback port and closes it: connections are refused.
+// DeadAddr: a loopback address at which connections are refused for as long as this
+// process lives: the socket is bound (so nobody else can get the port) but never listens.
+var deadSockets []int
+
 func DeadAddr() string {
-	ln, err := net.Listen("tcp", "127.0.0.1:0")
+	fd, err := syscall.Socket(syscall.AF_INET, syscall.SOCK_STREAM, 0)
 	if err != nil {
 		panic(err)
 	}
-	a := ln.Addr().String()
-	ln.Close()
-	return a
+	if err := syscall.Bind(fd, &syscall.SockaddrInet4{Port: 0, Addr: [4]byte{127, 0, 0, 1}}); err != nil {
+		panic(err)
+	}
+	sa, err := syscall.Getsockname(fd)
+	if err != nil {
+		panic(err)
+	}
+	deadSockets = append(deadSockets, fd)
+	return "127.0.0.1:" + strconv.Itoa(sa.(*syscall.SockaddrInet4).Port)
 }
 
 func (s *Stub) Set(b Behaviour) { s.mu.Lock(); s.b = b; s.mu.Unlock() }
